@@ -20,8 +20,13 @@ COMMON_ASSUMPTIONS = [
 ]
 
 S = "self.connection_state"
-INLINE = ["_set_connection_state", "_set_fatal_exception_if_unset", "_async_cancel_pong_timer", "_set_start_connect_future",
+INLINE = ["_release_resources", "_do_connect", "_do_finish_connect", "_register_internal_message_handlers", "_set_fatal_exception_if_unset", "_async_cancel_pong_timer", "_set_start_connect_future",
           "_set_finish_connect_future", "send_message", "set_log_name", "_async_schedule_keep_alive"]
+
+
+def State_():
+    from pyvc.state import State
+    return State()
 
 
 def P(tag, name, text):
@@ -29,12 +34,19 @@ def P(tag, name, text):
     return Clause_(name, text, "property", [tag])
 
 
+def OWN(tag, name, text):
+    """A property clause about the function's own locals / write log: an obligation of the function, not visible to callers."""
+    c = Clause_(name, text, "property", [tag])
+    c.own_only = True
+    return c
+
+
 def Clause_(name, text, kind, tags):
     from pyvc.contracts import Clause
     return Clause(name, text, kind, tags)
 
 
-def mk(qualname, ensures=(), dispatches=False, **kw):
+def mk(qualname, ensures=(), dispatches=False, phase_owner=False, has_awaits=False, **kw):
     """ensures: list of Clause | (name, text) ; Inv/Step are added as auxiliary ensures (used by callers) and are
     checked as obligations by the exit hook (with the tags of the running property)."""
     from pyvc.contracts import Clause
@@ -44,16 +56,24 @@ def mk(qualname, ensures=(), dispatches=False, **kw):
         cl.append(e if isinstance(e, Clause) else Clause(e[0], e[1], "auxiliary"))
     if not dispatches:
         cl.append(Clause("delivers-nothing", "ghost.dispatched == old(ghost.dispatched)", "auxiliary"))
-    c.ensures = cl + [Clause(n, t, "auxiliary") for n, t, _ in inv_step_ensures()]
+    if "q" not in c.ghost_params:
+        c.ghost_params = dict(c.ghost_params, q="cls")
+    if not any(x.name == "entries-never-disappear" for x in cl):
+        cl.append(Clause("entries-never-disappear", "implies(old(has_entry(self, q)), has_entry(self, q))", "auxiliary"))
+    c.phase_owner = phase_owner
+    c.has_awaits = has_awaits
+    # entry->exit of a function with awaits includes what the environment (possibly a running connect phase) did
+    c.ensures = cl + [Clause(n, t, "auxiliary") for n, t, _ in inv_step_ensures(phase_owner or has_awaits)]
     c.own_ensures = len(cl)
     # exceptional exits give callers the same Inv/Step/frame facts (they are obligations of the exit hook here)
     newr = {}
     for k, spec in (c.raises or {}).items():
         spec = {} if spec is True else ({"when": spec} if isinstance(spec, str) else dict(spec))
         have = {e[0] for e in spec.get("ensures", []) if isinstance(e, tuple)}
-        extra = [(n, t) for n, t, _k in inv_step_ensures() if n not in have]
+        extra = [(n, t) for n, t, _k in inv_step_ensures(phase_owner or has_awaits) if n not in have]
         if not dispatches and "delivers-nothing" not in have:
             extra.append(("delivers-nothing", "ghost.dispatched == old(ghost.dispatched)"))
+        extra.append(("entries-never-disappear", "implies(old(has_entry(self, q)), has_entry(self, q))"))
         spec["ensures"] = list(spec.get("ensures", [])) + extra
         newr[k] = spec
     c.raises = newr
@@ -83,8 +103,11 @@ def cleanup_contract():
               f"implies(old({S}) is not CS.CLOSED and 0 <= k and k < len({W}) and not old(fdone({W}[k])), "
               f"has_exc({W}[k]) and typeof_is(fexc({W}[k]), APIConnectionError) and "
               f"implies(old(self._fatal_exception) is not None and typeof_is(old(self._fatal_exception), APIConnectionError), fexc({W}[k]) is old(self._fatal_exception)))"),
-            P("C05", "idempotent", f"implies(old({S}) is CS.CLOSED, conn_unchanged())"),
-            ("connect-futures-released", "fut_done_or_none(old(self._start_connect_future)) and fut_done_or_none(old(self._finish_connect_future))"),
+            P("C08", "everything-released-even-if-acquired-after-the-first-close",
+              "self._frame_helper is None and self._socket is None and self._ping_timer is None and self._pong_timer is None"),
+            P("C05", "idempotent", f"implies(old({S}) is CS.CLOSED, {S} is CS.CLOSED and ghost.stop_calls == old(ghost.stop_calls) and "
+                                   "self._fatal_exception is old(self._fatal_exception) and self._expected_disconnect == old(self._expected_disconnect))"),
+            ("connect-futures-released", f"implies(old({S}) is not CS.CLOSED, fut_done_or_none(old(self._start_connect_future)) and fut_done_or_none(old(self._finish_connect_future)))"),
             ("fatal-unchanged", "self._fatal_exception is old(self._fatal_exception) or old(self._fatal_exception) is None"),
         ],
         loops={"loop#1": dict(
@@ -165,9 +188,42 @@ def send_messages_contract(n=1):
 
 
 def send_messages_callee():
-    """What callers of send_messages rely on (any arity): the conjunction proved per arity above."""
-    c = send_messages_contract(1)
-    c.label = None
+    """What callers of send_messages rely on (any proved arity): the contract above, with the write recorded in the
+    caller's own write log on the normal exit."""
+    from pyvc.contracts import apply_contract
+    from contracts.common_conn import snapshot_msg
+    base = send_messages_contract(1)
+    base.label = None
+    from pyvc.contracts import Clause
+    base.ensures = [cl for cl in base.ensures if cl.name not in ("exactly-one-write-of-the-batch", "written-only-while-open")] + \
+                   [Clause("gate-passed", "old(self._handshake_complete)", "auxiliary")]
+    for spec in base.raises.values():
+        spec["ensures"] = [e for e in spec.get("ensures", []) if not (isinstance(e, tuple) and e[0] in ("gate-writes-nothing", "no-write-recorded"))] + \
+                          ([("nothing-changes", "conn_unchanged()")] if "not old(self._handshake_complete)" in (spec.get("when") or "") else [])
+    c = Contract(base.target, self_type="inst[APIConnection]")
+
+    def model(eng, st, fv, args, kwargs):
+        msgs = eng.iter_concrete(kwargs.get("msgs", args[-1]), st)
+        if len(msgs) > 3:
+            raise Unsupported("send_messages: batches of more than 3 messages are outside the proved arities")
+        out = []
+        for s, r in apply_contract(eng, base, fv, args, kwargs, st):
+            if not isinstance(r, Raised):
+                selfv = args[0]
+                fh = s.heap[selfv.oid].f["_frame_helper"]
+                alts = fh.alts if isinstance(fh, VUnion) else [(None, fh)]
+                closed = z3.BoolVal(False)
+                for g, a in alts:
+                    if isinstance(a, VObj):
+                        closed = rget(eng, s, "FH.closed", a.e) if g is None else z3.If(g, rget(eng, s, "FH.closed", a.e), closed)
+                batch = []
+                for m in msgs:
+                    pid = eng.call(eng.hooks["names"]["proto_id"], [eng.call(eng.hooks["names"]["class_of"], [m], {}, s)[0][1]], {}, s)[0][1]
+                    batch.append((pid, snapshot_msg(eng, s, m)))
+                s.events = s.events + [("write", batch, closed)]
+            out.append((s, r))
+        return out
+    c.model = model
     return c
 
 
@@ -176,14 +232,14 @@ def process_packet_contract():
     return mk(
         "process_packet", params={"msg_type_proto": "int", "data": "bytes"}, dispatches=True,
         requires=[("type-number-is-a-varint-or-16-bit-value", "msg_type_proto >= 0")],
-        post_hints=f"if defined_id(msg_type_proto):\n    unfold(with_msg({H}, msg, len({H})))",
+        post_hints=f"if defined_id(msg_type_proto) and old({S}) is not CS.CLOSED:\n    unfold(with_msg({H}, msg, len({H})))",
         ensures=[
             P("C08", "closed-connection-delivers-nothing", f"implies(old({S}) is CS.CLOSED, ghost.dispatched == old(ghost.dispatched))"),
-            P("C10", "any-valid-message-is-a-sign-of-life", "implies(defined_id(msg_type_proto), n_cuts > 0 or (self._pong_timer is None and not self._send_pending_ping and not armed(old(self._pong_timer))))"),
+            P("C10", "any-valid-message-is-a-sign-of-life", "implies(defined_id(msg_type_proto), passed_loop or (self._pong_timer is None and not self._send_pending_ping and not armed(old(self._pong_timer))))"),
             P("C12", "undefined-type-ignored", "implies(not defined_id(msg_type_proto), conn_unchanged() and n_writes == 0)"),
             P("C12", "class-is-the-one-api.proto-assigns", "implies(defined_id(msg_type_proto), same_class(class_of(msg), proto_class(msg_type_proto)))"),
             P("C12", "each-subscriber-exactly-once-in-one-pass",
-              f"implies(defined_id(msg_type_proto), ghost.dispatched == old(ghost.dispatched) + with_msg({H}, msg, len({H})))"),
+              f"implies(defined_id(msg_type_proto) and old({S}) is not CS.CLOSED, ghost.dispatched == old(ghost.dispatched) + with_msg({H}, msg, len({H})))"),
         ],
         raises={"Exception": {"kind": "property", "ensures": [
             ("undecodable-closes-with-protocol-error", f"implies(decode_failed, {CLOSED} and ghost.dispatched == old(ghost.dispatched) and "
@@ -194,7 +250,8 @@ def process_packet_contract():
             index="_i",
             invariant=[f"ghost.dispatched == old(ghost.dispatched) + with_msg({H}, msg, _i)",
                        f"enum_of(handlers_copy) == {H}"] + loop_inv_step(),
-            entry_hints=f"unfold(with_msg({H}, msg, 0))",
+            # (C10) before the first subscriber runs the message has already counted as a sign of life
+            entry_hints=f"unfold(with_msg({H}, msg, 0))\nassert implies(True, self._pong_timer is None and not self._send_pending_ping and not armed(old(self._pong_timer)))",
             end_hints=f"unfold(with_msg({H}, msg, _i))",
             modifies=all_mods())},
         tags=["C12", "C10"],
@@ -399,6 +456,420 @@ def remove_callback_contract(n=1):
     )
 
 
+def complex_contract(n_types=1, n_msgs=1):
+    AP, SP = "do_append", "do_stop"
+    COLL = f"coll(ghost.arrivals, {AP}, {SP}, ghost.narr)"
+    reg = " and ".join(f"handler_registered(self, msg_types[{i}], on_message)" for i in range(n_types))
+    unreg = " and ".join(f"not handler_registered(self, msg_types[{i}], on_message)" for i in range(n_types))
+    left_nothing = [("own:no-handler-left", f"implies(n_cuts > 0, {unreg})"),
+                    ("own:no-waiter-left", "implies(n_cuts > 0, not set_has(self._read_exception_futures, fut))"),
+                    ("own:no-timer-left", "implies(n_cuts > 0, not armed(timeout_handle))")]
+    exp = ", ".join(f"(proto_id(class_of(messages[{i}])), messages[{i}])" for i in range(n_msgs))
+
+    def setup(eng, st):
+        msgs_setup(n_msgs)(eng, st)
+        st.env.f["messages"] = st.env.f.pop("msgs")
+    c = mk(
+        "send_messages_await_response_complex", label=f"types{n_types}msgs{n_msgs}", dispatches=True, has_awaits=True,
+        ghost_params={"i": "int"},
+        params={"messages": "none", "do_append": "opt[callable[Pred]]", "do_stop": "opt[callable[Pred]]",
+                "msg_types": "tuple[" + ",".join(["cls"] * n_types) + "]", "timeout": "real"},
+        setup=setup, result="list[obj[Message]]",
+        requires=[("timeout-positive", "timeout > 0")],
+        cutpoints={"await#1": dict(
+            check=[("request-written-once-before-waiting", f"writes == (({exp}{',' if n_msgs == 1 else ''}),)", ["C11"]),
+                   ("registered-in-the-same-turn-as-the-write", f"n_cuts == 0 and {reg} and is_collector(on_message, fut, responses, {AP}, {SP})", ["C11"]),
+                   ("waiter-registered", "set_has(self._read_exception_futures, fut) and not fdone(fut)", ["C11", "C08"]),
+                   ("own-timeout-armed", "armed(timeout_handle) and timer_when(timeout_handle) == ghost.now + timeout", ["C11", "C09"])],
+            havoc_typed={"responses": "list[obj[Message]]"},
+            ghost_fresh={"arrivals": "seq[obj]", "narr": "int"},
+            # call invariant (L3 lemma ci_step + C12 dispatch contract + the registration obligations above)
+            assume=[f"ghost.narr >= 0 and ghost.narr <= len(ghost.arrivals) and responses == {COLL}",
+                    f"implies(fdone(fut) and not has_exc(fut), stopped(ghost.arrivals, {AP}, {SP}, ghost.narr))",
+                    # the collector is registered for msg_types only, and dispatch calls it only with messages of those classes (C12)
+                    "implies(0 <= i and i < len(responses), one_of_types(responses[i], msg_types))",
+                    # who may complete `fut` (A-FUTOWN): the collector (result), its own timer (TimeoutError), _cleanup (the connection's error)
+                    "implies(fdone(fut) and has_exc(fut), (fexc(fut) is boxed(asyncio_TimeoutError) and not armed(timeout_handle)) or "
+                    f"(typeof_is(fexc(fut), APIConnectionError) and {S} is CS.CLOSED))"],
+            exc_classes=["TimeoutError", "APIConnectionError"],
+        )},
+        post_hints=f"coll_single(ghost.arrivals, {AP}, {SP}, ghost.narr)",
+        ensures=[
+            OWN("C11", "returns-the-list-its-collector-filled", "result is responses"),
+            P("C11", "result-is-the-collected-responses", f"ghost.narr >= 0 and ghost.narr <= len(ghost.arrivals) and result == {COLL} and stopped(ghost.arrivals, {AP}, {SP}, ghost.narr)"),
+            P("C11", "every-response-has-a-subscribed-type", "implies(0 <= i and i < len(result), one_of_types(result[i], msg_types))"),
+            P("C11", "single-response-when-no-predicates", f"implies({AP} is None and {SP} is None, len(result) == 1)"),
+        ] + [OWN("C11", n_, t_) for n_, t_ in left_nothing],
+        raises={
+            "TimeoutAPIError": {"kind": "property", "ensures": [("own:only-after-its-own-timer-fired-or-the-connection-closed", f"n_cuts > 0 and (fexc(fut) is boxed(asyncio_TimeoutError) or {S} is CS.CLOSED)")] + left_nothing},
+            "APIConnectionError": {"kind": "property", "ensures": left_nothing},
+            "CancelledError": {"kind": "property", "ensures": left_nothing},
+        },
+        tags=["C11", "C09", "C08"],
+    )
+    return c
+
+
+def define_predicate(eng, st, f):
+    """A predicate given as a lambda of the real code: accepts(f, m) is *defined* by the lambda's body, for every message m
+    (the body is evaluated symbolically on an arbitrary message; it must be a single pure path)."""
+    if not (isinstance(f, VFunc) and f.kind == "py"):
+        return
+    from pyvc.builtins import typeof_f
+    m = z3.Const(fresh_name("anymsg"), ObjS)
+    sc = st.clone()
+    r = eng.call(f, [VObj(m, "Message")], {}, sc)
+    if len(r) != 1 or isinstance(r[0][1], Raised) or len(r[0][0].pc) != len(st.pc):
+        raise Unsupported("predicate lambda is not a single pure path")
+    b = truth(r[0][1], r[0][0])
+    acc = eng.call(eng.hooks["names"]["accepts"], [f, VObj(m, "Message")], {}, st)[0][1]
+    st.fact(z3.ForAll([m], acc.e == b))
+
+
+def callee_on_record(qual, cls_name, base_contract):
+    """A method taking a received message of class `cls_name`: called with an opaque message of another class it fails with
+    AttributeError on its first field access (what the real code does); otherwise its contract applies to the message's fields."""
+    from pyvc.contracts import apply_contract
+    from pyvc.builtins import typeof_f, cls_code
+    c = Contract(CONN + "APIConnection." + qual, self_type="inst[APIConnection]")
+
+    def model(eng, st, fv, args, kwargs):
+        import aioesphomeapi.api_pb2 as pb
+        cls = getattr(pb, cls_name)
+        arg = args[1]
+        if not isinstance(arg, VObj):
+            return apply_contract(eng, base_contract(), fv, args, kwargs, st)
+        out = []
+        for s, tv in eng.fork_bool(typeof_f(arg.e) == cls_code(cls), st, f"is:{cls_name}"):
+            if tv:
+                rec = eng.as_record(eng, s, arg, cls)
+                out.extend(apply_contract(eng, base_contract(), fv, [args[0], rec] + list(args[2:]), kwargs, s))
+            else:
+                out.append((s, eng.raise_py(s, AttributeError, f"not a {cls_name}")))
+        return out
+    c.model = model
+    return c
+
+
+def complex_dispatch():
+    from pyvc.contracts import apply_contract
+    c = Contract(CONN + "APIConnection.send_messages_await_response_complex", self_type="inst[APIConnection]")
+
+    def model(eng, st, fv, args, kwargs):
+        a = list(args)
+        names_ = ["self", "messages", "do_append", "do_stop", "msg_types", "timeout"]
+        vals = dict(zip(names_, a))
+        vals.update(kwargs)
+        nm = len(eng.iter_concrete(vals["messages"], st))
+        nt = len(eng.iter_concrete(vals["msg_types"], st))
+        if not (1 <= nm <= 2 and 1 <= nt <= 2):
+            raise Unsupported(f"send_messages_await_response_complex: {nm} messages / {nt} types is outside the proved arities")
+        cc = complex_contract(nt, nm)
+        cc.setup = None
+        for pname in ("do_append", "do_stop"):
+            define_predicate(eng, st, vals[pname])
+        # the request goes out first (its contract: gate, one write, failure closes); the rest of the call follows
+        out = []
+        sm = eng.contracts[CONN + "APIConnection.send_messages"]
+        import aioesphomeapi.connection as C_
+        smf = eng.find_method(C_.APIConnection, "send_messages", st)
+        for s, r in sm.model(eng, st, smf, [vals["self"], vals["messages"]], {}):
+            if isinstance(r, Raised):
+                out.append((s, r))
+            else:
+                out.extend(apply_contract(eng, cc, fv, args, kwargs, s))
+        return out
+    c.model = model
+    return c
+
+
+def ci_lemmas():
+    M = "contracts.conn."
+    return [
+        Contract(M + "ci_step", params={"fut": "obj[Future]", "responses": "list[obj]", "do_append": "opt[callable[Pred]]", "do_stop": "opt[callable[Pred]]",
+                                        "A": "seq[obj]", "k": "int"},
+                 setup=_regions_setup,
+                 requires=["0 <= k and k < len(A)", "responses == coll(A, do_append, do_stop, k)",
+                           "(fdone(fut) and not has_exc(fut)) == stopped(A, do_append, do_stop, k)", "implies(fdone(fut), not has_exc(fut))"],
+                 ensures=["responses == coll(A, do_append, do_stop, k + 1)",
+                          "(fdone(fut) and not has_exc(fut)) == stopped(A, do_append, do_stop, k + 1)", "implies(fdone(fut), not has_exc(fut))"],
+                 modifies=["region:Future.done", "region:Future.exc", "responses"], kind="auxiliary", tags=["C11"]),
+        Contract(M + "coll_single", params={"A": "seq[obj]", "ap": "opt[callable[Pred]]", "sp": "opt[callable[Pred]]", "k": "int"},
+                 requires=["k >= 0", "k <= len(A)"],
+                 ensures=["implies(ap is None and sp is None and stopped(A, ap, sp, k), len(coll(A, ap, sp, k)) == 1)",
+                          "implies(ap is None and sp is None and not stopped(A, ap, sp, k), len(coll(A, ap, sp, k)) == 0 and k == 0)"],
+                 decreases="k", recursive_ok=True, kind="auxiliary", tags=["C11"]),
+    ]
+
+
+def ci_step(fut, responses, do_append, do_stop, A, k):
+    """L3-C11, induction step of the call invariant: one more arrival handled by the real handle_complex_message
+    (through its contract) takes (coll(A,k), stopped(A,k)) to (coll(A,k+1), stopped(A,k+1))."""
+    unfold(coll(A, do_append, do_stop, k + 1))
+    unfold(stopped(A, do_append, do_stop, k + 1))
+    handle_complex_message(fut, responses, do_append, do_stop, A[k])
+
+
+def coll_single(A, ap, sp, k):
+    unfold(coll(A, ap, sp, k))
+    unfold(stopped(A, ap, sp, k))
+    if k > 0:
+        coll_single(A, ap, sp, k - 1)
+        unfold(stopped(A, ap, sp, k - 1))
+
+
+# ------------------------------------------------------------------------------------------------------------
+# the connect phases, disconnect and the single-response call
+# ------------------------------------------------------------------------------------------------------------
+CANCEL = {"CancelledError": {"kind": "auxiliary"}}
+
+
+def set_state_contract():
+    c = mk(
+        "_set_connection_state", params={"state": f"enum[{cm.ST}]"},
+        ensures=[P("C05", "state-and-flags-set-together", f"{S} is state and self.is_connected == (state is CS.CONNECTED) and "
+                                                          "self._handshake_complete == (state is CS.HANDSHAKE_COMPLETE or state is CS.CONNECTED)"),
+                 P("C05", "never-leaves-closed", f"implies(old({S}) is CS.CLOSED, state is CS.CLOSED)")],
+        raises={"ConnectionInterruptedError": {"kind": "property", "when": f"old({S}) is CS.CLOSED and state is not CS.CLOSED",
+                                               "ensures": [("nothing-changes", "conn_unchanged()")]}},
+        requires=[("callers-only-move-forward", f"rank(state) >= rank({S}) or {S} is CS.CLOSED"),
+                  ("connected-only-from-the-finish-phase", "implies(state is CS.CONNECTED, ghost.in_phase)")],
+        modifies=["self.connection_state", "self.is_connected", "self._handshake_complete"], tags=["C05"],
+    )
+    c.conn_entry = False          # a private helper: Inv/Step are obligations of its callers' segments
+    c.ensures = [cl for cl in c.ensures if cl.name in ("state-and-flags-set-together", "never-leaves-closed")]
+    for spec in c.raises.values():
+        spec["ensures"] = [("nothing-changes", "conn_unchanged()")]
+    return c
+
+
+def set_state_callee():
+    """_set_connection_state as seen by callers: its contract plus the ghost update `ever_connected`."""
+    from pyvc.contracts import apply_contract
+    base = set_state_contract()
+    base.ensures = [cl for cl in base.ensures if cl.name in ("state-and-flags-set-together", "never-leaves-closed")]
+    for spec in base.raises.values():
+        spec["ensures"] = [("nothing-changes", "conn_unchanged()")]
+    c = Contract(base.target, self_type="inst[APIConnection]")
+
+    def model(eng, st, fv, args, kwargs):
+        out = []
+        for s, r in apply_contract(eng, base, fv, args, kwargs, st):
+            if not isinstance(r, Raised):
+                state = kwargs.get("state", args[-1])
+                g = s.heap[s.ghost_oid]
+                is_conn = simp(as_int(state) == 3)
+                g.f["ever_connected"] = VBool(simp(z3.Or(truth(g.f["ever_connected"]), is_conn)))
+            out.append((s, r))
+        return out
+    c.model = model
+    return c
+
+
+def resolve_host_contract():
+    keep = [("own-frame", f"({S} is old({S}) or {S} is CS.CLOSED) and implies(old(self._frame_helper) is None, self._frame_helper is None) "
+                          "and implies(old(self._socket) is None, self._socket is None)")]
+    return mk("_connect_resolve_host", result="obj[AddrList]", dispatches=True, phase_owner=True, has_awaits=True, ensures=keep,
+              raises={"APIConnectionError": {"kind": "property", "ensures": keep}, "CancelledError": {"kind": "auxiliary", "ensures": keep}}, tags=["C09"])
+
+
+def socket_connect_assumed():
+    """ASSUMED (not verified here): the TCP connect loop over aiohappyeyeballs.  Stated from its text: on return a
+    socket is attached; it raises only TimeoutAPIError / SocketAPIError (or is cancelled); it does not touch the state."""
+    return mk("_connect_socket_connect", params={"addrs": "obj[AddrList]"}, dispatches=True, phase_owner=True, has_awaits=True,
+              ensures=[("socket-attached", "self._socket is not None"),
+                       ("own-frame", f"({S} is old({S}) or {S} is CS.CLOSED) and implies(old(self._frame_helper) is None, self._frame_helper is None)")],
+              raises={"APIConnectionError": {"kind": "auxiliary", "ensures": [("own-frame", f"({S} is old({S}) or {S} is CS.CLOSED) and implies(old(self._frame_helper) is None, self._frame_helper is None)")]},
+                      "CancelledError": {"kind": "auxiliary", "ensures": [("own-frame", f"({S} is old({S}) or {S} is CS.CLOSED) and implies(old(self._frame_helper) is None, self._frame_helper is None)")]}}, tags=["C09"])
+
+
+def init_frame_helper_contract():
+    return mk(
+        "_connect_init_frame_helper", dispatches=True, phase_owner=True, has_awaits=True,
+        requires=[("socket-opened", "self._socket is not None"), ("in-finish-phase", "ghost.in_phase"), ("no-helper-yet", "self._frame_helper is None")],
+        cutpoints={"await#3": dict(exc_classes=["Exception"]), "await#1": {}, "await#2": {}},
+        ensures=[P("C05", "handshake-complete-only-from-an-open-connection", f"{S} is CS.HANDSHAKE_COMPLETE and self._frame_helper is not None")],
+        raises={"Exception": {"kind": "auxiliary"}, **CANCEL},
+        tags=["C05", "C08", "C09"],
+    )
+
+
+def hello_login_contract(login):
+    HELLO = "HelloRequest(client_info=self._params.client_info, api_version_major=1, api_version_minor=10)"
+    CONNECT = "ConnectRequest(password=(self._params.password if self._params.password is not None else ''))"
+    exp = f"((proto_id(HelloRequest), {HELLO}), (proto_id(ConnectRequest), {CONNECT}))" if login else f"((proto_id(HelloRequest), {HELLO}),)"
+    return mk(
+        "_connect_hello_login", params={"login": "bool"}, label="login" if login else "nologin", dispatches=True, phase_owner=True, has_awaits=True,
+        modifies=all_mods() + ["ghost.hello_passed"],
+        requires=[("this-variant", "login" if login else "not login")],
+        post_hints="ghost.hello_passed = True",
+        ensures=[
+            ("hello-passed", "ghost.hello_passed"),
+            OWN("C06", "hello-and-login-go-out-in-one-write", f"len(writes) >= 1 and writes[0] == {exp}"),
+            OWN("C06", "succeeds-only-after-a-compatible-correctly-named-hello",
+              "exact_type(resp, HelloResponse) and resp.api_version_major <= 2 and "
+              "(self._params.expected_name is None or resp.name == '' or resp.name == self._params.expected_name)"),
+        ] + ([OWN("C06", "succeeds-only-if-the-password-was-accepted", "exact_type(login_response, ConnectResponse) and not login_response.invalid_password")] if login else []),
+        raises={"Exception": {"kind": "auxiliary"}, **CANCEL},
+        tags=["C06"],
+    )
+
+
+def hello_login_dispatch():
+    from pyvc.contracts import apply_contract
+    c = Contract(CONN + "APIConnection._connect_hello_login", self_type="inst[APIConnection]")
+
+    def model(eng, st, fv, args, kwargs):
+        login = kwargs.get("login", args[-1])
+        out = []
+        for s, tv in eng.fork_bool(truth(login, st), st, "login"):
+            out.extend(apply_contract(eng, hello_login_contract(tv), fv, args, kwargs, s))
+        return out
+    c.model = model
+    return c
+
+
+def phase_contract(which):
+    start = which == "start"
+    pre_state, post_state = ("INITIALIZED", "SOCKET_OPENED") if start else ("SOCKET_OPENED", "CONNECTED")
+    return mk(
+        "start_connection" if start else "finish_connection", params=({} if start else {"login": "bool"}), dispatches=True, phase_owner=True, has_awaits=True,
+        modifies=all_mods() + ["ghost.hello_passed"],
+        requires=[("no-other-phase-of-this-object-is-running", "not ghost.in_phase")],
+        pre_hints="ghost.in_phase = True", post_hints="ghost.in_phase = False", exc_hints="ghost.in_phase = False",
+        ensures=[P("C05", "phase-ends-in-its-target-state", f"{S} is CS.{post_state} and old({S}) is CS.{pre_state}")]
+        + ([] if start else [P("C06", "connected-only-after-the-hello-login-checks-passed", "ghost.hello_passed")]),
+        raises={
+            "RuntimeError": {"kind": "property", "when": f"old({S}) is not CS.{pre_state}", "ensures": [("misuse-changes-nothing", "conn_unchanged()")]},
+            "APIConnectionError": {"kind": "property", "when": f"old({S}) is CS.{pre_state}",
+                                   "ensures": [("failed-phase-ends-closed", CLOSED),
+                                               ("stop-callback-not-invoked", "ghost.stop_calls == old(ghost.stop_calls)")]},
+        },
+        tags=["C05", "C06", "C08", "C09"],
+    )
+
+
+def single_response_contract():
+    return mk(
+        "send_message_await_response", params={"send_msg": "obj[Message]", "response_type": "cls", "timeout": "real"}, result="obj[Message]",
+        dispatches=True, has_awaits=True, requires=[("timeout-positive", "timeout > 0")],
+        setup=lambda eng, st: None,
+        ensures=[P("C11", "returns-a-message-of-the-requested-type", "same_class(class_of(result), response_type)")],
+        raises={"APIConnectionError": {"kind": "property"}, **CANCEL},
+        tags=["C11", "C09"],
+    )
+
+
+def disconnect_contract():
+    return mk(
+        "disconnect", dispatches=True, has_awaits=True,
+        pre_hints="ghost.graceful = True",        # a local disconnect has been initiated
+        ensures=[P("C05", "closed", CLOSED),
+                 P("C07", "stop-says-expected", "implies(ghost.stop_calls > old(ghost.stop_calls), ghost.stop_arg)")],
+        raises={"CancelledError": {"kind": "property"}},
+        tags=["C05", "C07", "C09"],
+    )
+
+
+def keepalive_window_target():
+    """L3-C10 (reals, no induction).  Hypotheses = the postconditions of _async_send_keep_alive, process_packet and
+    _async_pong_not_received proved above, transcribed for three consecutive ticks T0 < T1 < T2 (T_{i+1} = T_i + K):
+      tick at time T with (pending, pong):  ping iff pending;  pong' = (T + 4.5K if pending and pong is None else pong);  pending' = True;
+      a valid message at time t:            pending' = False;  pong' = None;
+      the pong timer fires at its deadline if still armed: the connection is declared dead at that time.
+    Conclusions: (a) no ping at a tick if a message arrived since the previous tick, (b) a peer whose last message arrives at
+    t in (T0-K, T0] is declared dead exactly at T1 + 4.5K = T0 + 5.5K, which lies in [t + 5.5K, t + 6.5K); if the message and the
+    tick T0 coincide and the tick runs first, at T0 + 6.5K = t + 6.5K; (c) while messages keep arriving with gaps < 4.5K nobody dies."""
+    from pyvc.contracts import CTX, oblige as _ob
+    from pyvc.state import State
+
+    def run(eng, opts):
+        CTX.target = "connection.keepalive-window"
+        CTX.tags = ["C10"]
+        CTX.timeout_ms = opts.get("timeout_ms")
+        CTX.both = opts.get("both", False)
+        CTX.input_syms = []
+        R = z3.Real
+        K, T0, t = R("K"), R("T0"), R("t")
+        st = State()
+        st.assume(K > 0)
+        NONE = z3.RealVal(-1)          # pong deadline "None" (deadlines are > 0)
+        st.assume(T0 > K)
+
+        def tick(T, pending, pong):
+            ping = pending
+            pong2 = z3.If(z3.And(pending, pong == NONE), T + 4.5 * K, pong)
+            return ping, z3.BoolVal(True), pong2
+
+        def msg(pending, pong):
+            return z3.BoolVal(False), NONE
+        p0, g0 = z3.Bool("pending0"), R("pong0")
+        st.assume(z3.Or(g0 == NONE, g0 > 0))
+        # case 1: last message at t in (T0-K, T0), processed before the tick T0; then silence
+        st1 = st.clone()
+        st1.assume(z3.And(t > T0 - K, t <= T0))
+        pa, ga = msg(p0, g0)
+        ping0, pb, gb = tick(T0, pa, ga)
+        ping1, pc, gc = tick(T0 + K, pb, gb)
+        _ob(eng, st1, z3.Not(ping0), "no-ping-at-a-tick-after-a-message", kind="property")
+        _ob(eng, st1, ping1, "ping-at-the-first-idle-tick", kind="property")
+        _ob(eng, st1, gc == T0 + 5.5 * K, "pong-deadline-is-4.5K-after-the-first-unanswered-ping", kind="property")
+        ping2, pd, gd = tick(T0 + 2 * K, pc, gc)
+        _ob(eng, st1, z3.And(ping2, gd == gc), "later-pings-do-not-move-the-deadline", kind="property")
+        _ob(eng, st1, z3.And(gc >= t + 5.5 * K, gc < t + 6.5 * K), "silent-peer-detected-within-[t+5.5K,t+6.5K)", kind="property")
+        # case 2: the message arrives at the very instant of tick T0 and the tick runs first
+        st2 = st.clone()
+        st2.assume(t == T0)
+        ping0, pb, gb = tick(T0, p0, g0)
+        pm, gm = msg(pb, gb)
+        ping1, pc, gc = tick(T0 + K, pm, gm)
+        ping2, pd, gd = tick(T0 + 2 * K, pc, gc)
+        _ob(eng, st2, z3.And(z3.Not(ping1), ping2, gd == t + 6.5 * K), "tie-with-a-tick-detected-at-t+6.5K", kind="property")
+        # case 3: a live peer: a message between any armed deadline and its arming (gap < 4.5K) always cancels it
+        st3 = st.clone()
+        arm, tm = R("armed_at"), R("tm")
+        st3.assume(z3.And(tm >= arm, tm < arm + 4.5 * K))
+        pm, gm = msg(z3.BoolVal(True), arm + 4.5 * K)
+        _ob(eng, st3, gm == NONE, "a-message-before-the-deadline-cancels-it", kind="property")
+    return Target("lemma:keepalive-window", "lemma", run, functions=[])
+
+
+def step_preorder_target():
+    """Step_conn is reflexive and transitive (needed by the loop rule for loops whose bodies contain cut points and
+    by the chaining of segments): checked from the clause texts themselves over three arbitrary states."""
+    from pyvc.contracts import CTX, fresh as _fresh, eval_clause as _ev, oblige as _ob, _parse_expr as _pe
+    from pyvc.state import State, HObj
+
+    def run(eng, opts):
+        CTX.target = "connection.Step_conn"
+        CTX.tags = list(eng.conn_check_tags or ["C05"])
+        CTX.timeout_ms = opts.get("timeout_ms")
+        CTX.both = opts.get("both", False)
+        CTX.input_syms = []
+        class _Owner:
+            phase_owner = True
+        eng.active_contract = _Owner()
+        st = State()
+        st.ghost_oid = st.alloc(HObj("cell", None, {}))
+        eng.push_frame(st, None, "aioesphomeapi.connection", "<lemma>")
+        eng.hooks["init_ghost"](eng, st, None)
+        selfref = _fresh(eng, st, "inst[APIConnection]", "self")
+        st.env.f["self"] = selfref
+        for r in cm.REGIONS:
+            region(eng, st, r)
+        a = st.clone()
+        st.labels = {"A": a, "seg": a}
+        for n_, txt, _t in cm.STEP:      # reflexive
+            _ob(eng, st, _ev(eng, st, _pe(cm.step_text(txt, "A")), {"self": selfref}), f"reflexive/{n_}", kind="auxiliary")
+        cm.havoc_world(eng, st, selfref)           # B with Step(A, B)
+        st.labels["A"] = a
+        cm.havoc_world(eng, st, selfref)           # C with Step(B, C)
+        st.labels["A"] = a
+        for n_, txt, _t in cm.STEP:      # transitive
+            _ob(eng, st, _ev(eng, st, _pe(cm.step_text(txt, "A")), {"self": selfref}), f"transitive/{n_}", kind="auxiliary")
+    return Target("lemma:step-is-a-preorder", "lemma", run, functions=[])
+
+
 def targets_for(eng, names, tags):
     """Install the model, register every connection contract (so callers use contracts, not bodies) and return the
     targets for `names`."""
@@ -406,18 +877,50 @@ def targets_for(eng, names, tags):
     register_specs(eng, "specs.conn")
     for n in INLINE:
         eng.inline.add(CONN + "APIConnection." + n)
+    eng.inline.add(CONN + "_make_hello_request")
     from pyvc import source
     for qn in source.get_module("aioesphomeapi.core").funcs:
         if qn.endswith(".__init__"):
             eng.inline.add("aioesphomeapi.core." + qn)
+    cm.install_async(eng)
     allc = ALL()
     for c in allc.values():
         eng.contracts[c.target] = c
+    lemma_ts = register_lemmas(eng, "contracts.conn", ci_lemmas())
+    names_ = eng.hooks.setdefault("names", {})
+    import aioesphomeapi.connection as C_
+    names_["handle_complex_message"] = eng.lift(C_.handle_complex_message, State_())
     out = []
     for n in names:
         if n == "send_messages":
             for k in (0, 1, 2, 3):
                 c = send_messages_contract(k)
+                c.tags = list(tags)
+                out.append(contract_target(c))
+            continue
+        if n == "_set_connection_state":
+            c = set_state_contract()
+            c.tags = list(tags)
+            out.append(contract_target(c))
+            continue
+        if n == "_connect_hello_login":
+            for lg in (False, True):
+                c = hello_login_contract(lg)
+                c.tags = list(tags)
+                out.append(contract_target(c))
+            continue
+        if n == "lemma:keepalive-window":
+            out.append(keepalive_window_target())
+            continue
+        if n == "lemma:step":
+            out.append(step_preorder_target())
+            continue
+        if n == "lemmas:C11":
+            out.extend(lemma_ts)
+            continue
+        if n == "send_messages_await_response_complex":
+            for nt, nm in ((1, 1), (2, 1), (2, 2), (1, 2)):
+                c = complex_contract(nt, nm)
                 c.tags = list(tags)
                 out.append(contract_target(c))
             continue
@@ -453,7 +956,10 @@ def ALL():
     cs = [cleanup_contract(), report_fatal_error_contract(), send_messages_callee(), process_packet_contract(), ping_handler_contract(),
           time_handler_contract(), disconnect_handler_contract(), force_disconnect_contract(), send_keep_alive_contract(),
           pong_not_received_contract(), hello_resp_contract(), login_resp_contract(), make_connect_request_contract(), wrap_contract(),
-          handle_timeout_contract(), handle_complex_message_contract()]
+          handle_timeout_contract(), handle_complex_message_contract(), set_state_callee(), resolve_host_contract(), socket_connect_assumed(),
+          init_frame_helper_contract(), hello_login_dispatch(), complex_dispatch(),
+          callee_on_record("_process_hello_resp", "HelloResponse", hello_resp_contract),
+          callee_on_record("_process_login_response", "ConnectResponse", login_resp_contract), phase_contract("start"), phase_contract("finish"), single_response_contract(), disconnect_contract()]
     cs += [arity_dispatch("_add_message_callback_without_remove", lambda n: add_callback_contract(n)),
            arity_dispatch("add_message_callback", lambda n: add_callback_contract(n, "add_message_callback")),
            arity_dispatch("_remove_message_callback", lambda n: remove_callback_contract(n))]
